@@ -7,6 +7,7 @@
   sound for their codings.
 -/
 import SmsVerif.Lemmas.Split
+import SmsVerif.Props.C05
 
 namespace SmsVerif.C14
 open SmsVerif SmsVerif.Split
@@ -650,6 +651,310 @@ example : GsmSeg [[0x31], [Gsm7.esc, 0x3C], [0x00]] := by
   · exact Or.inr ⟨_, rfl, by decide⟩
   · exact Or.inl ⟨_, rfl, by decide⟩
 
+
+/-! ### the encoders emit segmented strings: the segmentation hypotheses discharged
+
+  For ASCII, Windows-1252, UTF-16BE and GSM 7-bit the encoder is modelled (`Model/Text.lean`,
+  `Model/Gsm7.lean`, tied to `datacoding` by C05 / C08), so "the message is a sequence of whole
+  characters" is a theorem about the encoder's output rather than an assumption.  (GB18030 is
+  golang.org/x/text and stays an assumption.) -/
+
+open SmsVerif.Text in
+/-- the octets of each scalar of a text under a per-scalar coding -/
+def codeChars (c : Text.Coding) (text : List Nat) : List (List Nat) := text.map fun s => (c.code s).getD []
+
+open SmsVerif.Text in
+theorem encodeAll_chars (c : Coding) (text out : List Nat) (h : encodeAll c text = some out) :
+    (codeChars c text).flatten = out ∧ ∀ s ∈ text, ∃ u, c.code s = some u := by
+  induction text generalizing out with
+  | nil => simp [encodeAll] at h; subst h; simp [codeChars]
+  | cons s rest ih =>
+    simp only [encodeAll] at h
+    cases hc : c.code s with
+    | none => simp [hc] at h
+    | some u =>
+      simp only [hc, Option.map_eq_some_iff] at h
+      obtain ⟨r, hr, rfl⟩ := h
+      obtain ⟨h1, h2⟩ := ih r hr
+      refine ⟨by simp [codeChars, hc] at h1 ⊢; rw [h1], ?_⟩
+      intro x hx
+      simp only [List.mem_cons] at hx
+      rcases hx with rfl | hx
+      · exact ⟨u, hc⟩
+      · exact h2 x hx
+
+open SmsVerif.Text in
+/-- UTF-16BE: every scalar becomes one non-surrogate unit or one surrogate pair -/
+theorem utf16_chars_seg (text out : List Nat) (h : encodeAll utf16 text = some out) :
+    UcsSeg (codeChars utf16 text) := by
+  obtain ⟨_, hall⟩ := encodeAll_chars utf16 text out h
+  intro c hc
+  simp only [codeChars, List.mem_map] at hc
+  obtain ⟨s, hs, rfl⟩ := hc
+  obtain ⟨u, hu⟩ := hall s hs
+  rw [hu]
+  simp only [utf16] at hu
+  split at hu
+  · simp at hu
+  · rename_i hsc
+    simp only [isScalar, Bool.or_eq_true, decide_eq_true_eq, Bool.and_eq_true, Decidable.not_not] at hsc
+    split at hu
+    · simp only [Option.some.injEq] at hu; subst hu
+      left
+      exact ⟨_, _, rfl, by omega, by omega⟩
+    · simp only [Option.some.injEq] at hu; subst hu
+      right
+      exact ⟨_, _, _, _, rfl, by omega, by omega⟩
+
+open SmsVerif.Text in
+/-- **C14_ucs2_text_never_split**: for every text the UCS-2 encoder accepts, every cut the splitter
+    makes in the encoded message falls between two scalars — no assumption on the octets. -/
+theorem C14_ucs2_text_never_split (text out : List Nat) (h : encodeAll utf16 text = some out)
+    (per : Nat) (hper : 4 ≤ per) (heven : per % 2 = 0) :
+    ∀ e ∈ cutPoints ucs2Boundary out per (out.length + 1) 0, IsBoundary (codeChars utf16 text) e := by
+  have hf := (encodeAll_chars utf16 text out h).1
+  have := C14_ucs2_cuts_are_boundaries (codeChars utf16 text) (utf16_chars_seg text out h) per hper heven
+  rw [hf] at this
+  exact this
+
+open SmsVerif.Text in
+/-- single-octet codings (ASCII, Windows-1252): every scalar is one octet, every cut is a boundary -/
+theorem C14_single_octet_text_never_split (c : Coding) (h1 : ∀ s u, c.code s = some u → u.length = 1)
+    (text out : List Nat) (h : encodeAll c text = some out) (per : Nat) (hper : 0 < per) :
+    ∀ e ∈ cutPoints noBoundary out per (out.length + 1) 0, IsBoundary (codeChars c text) e := by
+  obtain ⟨hf, hall⟩ := encodeAll_chars c text out h
+  have hlen : ∀ ch ∈ codeChars c text, ch.length = 1 := by
+    intro ch hch
+    simp only [codeChars, List.mem_map] at hch
+    obtain ⟨s, hs, rfl⟩ := hch
+    obtain ⟨u, hu⟩ := hall s hs
+    rw [hu]; exact h1 s u hu
+  have := C14_plain_cuts_are_boundaries (codeChars c text) hlen per hper
+  rw [hf] at this
+  exact this
+
+/-- GSM 7-bit: the septets of each code point -/
+def gsmChars (t : Gsm7.Tables) (text : List Nat) : List (List Nat) :=
+  text.map fun c =>
+    match Gsm7.lookup t.fwd c with
+    | some v => [v]
+    | none => match Gsm7.lookup t.fwdEsc c with
+      | some v => [Gsm7.esc, v]
+      | none => []
+
+theorem lookup_mem (tbl : List (Nat × Nat)) (k v : Nat) (h : Gsm7.lookup tbl k = some v) : (k, v) ∈ tbl := by
+  induction tbl with
+  | nil => simp [Gsm7.lookup] at h
+  | cons kv rest ih =>
+    obtain ⟨a, b⟩ := kv
+    simp only [Gsm7.lookup] at h
+    split at h
+    · rename_i hab; simp at h; subst h; subst hab; simp
+    · exact List.mem_cons_of_mem _ (ih h)
+
+/-- no character of the regenerated alphabet is coded as ESC, neither directly nor after an ESC -/
+theorem gsm_tables_avoid_esc :
+    (C08.T.fwd.all fun kv => kv.2 != Gsm7.esc) = true ∧ (C08.T.fwdEsc.all fun kv => kv.2 != Gsm7.esc) = true := by
+  decide +kernel
+
+theorem gsm_encode_chars (text s : List Nat) (h : Gsm7.encode C08.T text = some s) :
+    (gsmChars C08.T text).flatten = s ∧ GsmSeg (gsmChars C08.T text) := by
+  induction text generalizing s with
+  | nil => simp [Gsm7.encode] at h; subst h; simp [gsmChars, GsmSeg]
+  | cons c cs ih =>
+    simp only [Gsm7.encode] at h
+    cases h1 : Gsm7.lookup C08.T.fwd c with
+    | some v =>
+      simp only [h1, Option.map_eq_some_iff] at h
+      obtain ⟨r, hr, rfl⟩ := h
+      obtain ⟨hf, hseg⟩ := ih r hr
+      have hv : v ≠ Gsm7.esc := by
+        have := List.all_eq_true.1 gsm_tables_avoid_esc.1 _ (lookup_mem _ _ _ h1)
+        simpa using this
+      have hcons : gsmChars C08.T (c :: cs) = [v] :: gsmChars C08.T cs := by simp [gsmChars, h1]
+      refine ⟨by rw [hcons, List.flatten_cons, hf]; rfl, ?_⟩
+      intro ch hch
+      rw [hcons, List.mem_cons] at hch
+      rcases hch with rfl | hch
+      · exact Or.inl ⟨v, rfl, hv⟩
+      · exact hseg ch hch
+    | none =>
+      simp only [h1] at h
+      cases h2 : Gsm7.lookup C08.T.fwdEsc c with
+      | none => simp [h2] at h
+      | some v =>
+        simp only [h2, Option.map_eq_some_iff] at h
+        obtain ⟨r, hr, rfl⟩ := h
+        obtain ⟨hf, hseg⟩ := ih r hr
+        have hv : v ≠ Gsm7.esc := by
+          have := List.all_eq_true.1 gsm_tables_avoid_esc.2 _ (lookup_mem _ _ _ h2)
+          simpa using this
+        have hcons : gsmChars C08.T (c :: cs) = [Gsm7.esc, v] :: gsmChars C08.T cs := by simp [gsmChars, h1, h2]
+        refine ⟨by rw [hcons, List.flatten_cons, hf]; rfl, ?_⟩
+        intro ch hch
+        rw [hcons, List.mem_cons] at hch
+        rcases hch with rfl | hch
+        · exact Or.inr ⟨v, rfl, hv⟩
+        · exact hseg ch hch
+
+/-- **C14_gsm_text_never_split**: for every text the GSM 7-bit encoder accepts, no cut separates an
+    ESC from the septet it introduces -/
+theorem C14_gsm_text_never_split (text s : List Nat) (h : Gsm7.encode C08.T text = some s) (per : Nat) (hper : 2 ≤ per) :
+    ∀ e ∈ cutPoints gsmBoundary s per (s.length + 1) 0, IsBoundary (gsmChars C08.T text) e := by
+  obtain ⟨hf, hseg⟩ := gsm_encode_chars text s h
+  have := C14_gsm_cuts_are_boundaries (gsmChars C08.T text) hseg per hper
+  rw [hf] at this
+  exact this
+
+/-! ### the property as stated: decoding the parts separately and concatenating gives the text -/
+
+theorem take_flatten_mono (chars : List (List Nat)) (a b : Nat) (h : a ≤ b) :
+    (chars.take a).flatten.length ≤ (chars.take b).flatten.length := by
+  have : chars.take b = chars.take a ++ (chars.take b).drop a := by
+    have := List.take_append_drop a (chars.take b)
+    rw [List.take_take, Nat.min_eq_left h] at this
+    exact this.symm
+  rw [this, List.flatten_append, List.length_append]; omega
+
+/-- cut points that are character boundaries slice the flattened text into groups of whole characters -/
+theorem slices_are_groups (chars : List (List Nat)) (hne : ∀ c ∈ chars, c ≠ []) (per : Nat) :
+    ∀ (cuts : List Nat) (b k0 : Nat), k0 ≤ chars.length → b = (chars.take k0).flatten.length →
+      Partition per chars.flatten.length b cuts → (∀ e ∈ cuts, IsBoundary chars e) →
+      ∃ segs : List (List (List Nat)), segs.flatten = chars.drop k0 ∧
+        slices chars.flatten b cuts = segs.map List.flatten := by
+  intro cuts
+  induction cuts with
+  | nil =>
+    intro b k0 hk hb hp _
+    simp only [Partition] at hp
+    refine ⟨[], ?_, rfl⟩
+    -- nothing is left after `k0`
+    have hlen : (chars.drop k0).flatten.length = 0 := by
+      have := congrArg List.length (congrArg List.flatten (List.take_append_drop k0 chars))
+      rw [List.flatten_append, List.length_append] at this
+      omega
+    cases hd : chars.drop k0 with
+    | nil => rfl
+    | cons c rest =>
+      have hc : c ∈ chars := List.mem_of_mem_drop (by rw [hd]; simp)
+      have := hne c hc
+      rw [hd] at hlen
+      simp only [List.flatten_cons, List.length_append] at hlen
+      cases c with
+      | nil => exact absurd rfl this
+      | cons x xs => simp at hlen
+  | cons e rest ih =>
+    intro b k0 hk hb hp hbd
+    obtain ⟨h1, _, h3, h4⟩ := hp
+    obtain ⟨k1, hk1, he⟩ := hbd e (by simp)
+    have hlt : k0 < k1 := by
+      rcases Nat.lt_or_ge k0 k1 with h | h
+      · exact h
+      · have := take_flatten_mono chars k1 k0 h
+        omega
+    obtain ⟨segs, hsegs, hsl⟩ := ih e k1 hk1 he h4 (fun x hx => hbd x (by simp [hx]))
+    refine ⟨(chars.drop k0).take (k1 - k0) :: segs, ?_, ?_⟩
+    · simp only [List.flatten_cons, hsegs]
+      have : chars.drop k1 = (chars.drop k0).drop (k1 - k0) := by
+        rw [List.drop_drop]; congr 1; omega
+      rw [this, List.take_append_drop]
+    · simp only [slices, List.map_cons, hsl, List.cons.injEq, and_true]
+      -- the first slice
+      have hd : chars.flatten.drop b = (chars.drop k0).flatten := by
+        have h := List.take_append_drop k0 chars
+        conv => lhs; rw [← h, List.flatten_append, hb]
+        simp
+      rw [hd]
+      have hsplit : chars.drop k0 = (chars.drop k0).take (k1 - k0) ++ (chars.drop k0).drop (k1 - k0) :=
+        (List.take_append_drop _ _).symm
+      have hlen : e - b = ((chars.drop k0).take (k1 - k0)).flatten.length := by
+        have h1' : chars.take k1 = chars.take k0 ++ (chars.drop k0).take (k1 - k0) := by
+          have := @List.take_add _ chars k0 (k1 - k0)
+          rw [show k0 + (k1 - k0) = k1 by omega] at this
+          exact this
+        rw [he, hb, h1', List.flatten_append, List.length_append]; omega
+      conv => lhs; rw [hsplit, List.flatten_append, hlen]
+      simp
+
+open SmsVerif.Text in
+theorem encodeAll_of_codes (c : Coding) (t : List Nat) (h : ∀ s ∈ t, ∃ u, c.code s = some u) :
+    encodeAll c t = some (codeChars c t).flatten := by
+  induction t with
+  | nil => rfl
+  | cons s rest ih =>
+    obtain ⟨u, hu⟩ := h s (by simp)
+    simp only [encodeAll, hu, ih (fun x hx => h x (by simp [hx])), Option.map_some, codeChars, List.map_cons,
+      List.flatten_cons, Option.getD_some]
+
+theorem groups_of_map {α β} (f : α → β) : ∀ (segs : List (List β)) (l : List α), segs.flatten = l.map f →
+    ∃ tsegs : List (List α), tsegs.flatten = l ∧ segs = tsegs.map (List.map f)
+  | [], l, h => by
+    simp only [List.flatten_nil] at h
+    have : l = [] := by simpa using h.symm
+    exact ⟨[], by simp [this], rfl⟩
+  | seg :: rest, l, h => by
+    simp only [List.flatten_cons] at h
+    obtain ⟨l1, l2, hl, h1, h2⟩ := List.map_eq_append_iff.1 h.symm
+    obtain ⟨ts, hts, hrest⟩ := groups_of_map f rest l2 h2.symm
+    exact ⟨l1 :: ts, by simp [hts, hl], by simp [h1, hrest]⟩
+
+open SmsVerif.Text in
+/-- **standalone_decodable, at the level of texts** (any per-scalar coding whose cut points are
+    character boundaries): the payloads of the parts are the encodings of consecutive pieces of the
+    text, each piece decodes on its own to itself, and the pieces concatenate to the text. -/
+theorem parts_decode_to_text (c : Coding)
+    (h1 : ∀ s u rest, c.code s = some u → c.step (u ++ rest) = some (s, rest))
+    (hne : ∀ s u, c.code s = some u → u ≠ [])
+    (text out : List Nat) (henc : encodeAll c text = some out) (per : Nat) (cuts : List Nat)
+    (hpart : Partition per out.length 0 cuts) (hb : ∀ e ∈ cuts, IsBoundary (codeChars c text) e) :
+    ∃ pieces : List (List Nat), pieces.flatten = text ∧
+      slices out 0 cuts = pieces.map (fun t => (codeChars c t).flatten) ∧
+      ∀ t ∈ pieces, decodeAll c (t.length + 1) (codeChars c t).flatten = some t := by
+  obtain ⟨hf, hall⟩ := encodeAll_chars c text out henc
+  have hne' : ∀ ch ∈ codeChars c text, ch ≠ [] := by
+    intro ch hch
+    simp only [codeChars, List.mem_map] at hch
+    obtain ⟨s, hs, rfl⟩ := hch
+    obtain ⟨u, hu⟩ := hall s hs
+    rw [hu]; exact hne s u hu
+  obtain ⟨segs, hsegs, hsl⟩ := slices_are_groups (codeChars c text) hne' per cuts 0 0 (Nat.zero_le _) (by simp)
+    (by rw [hf]; exact hpart) hb
+  rw [hf] at hsl
+  simp only [List.drop_zero, codeChars] at hsegs
+  obtain ⟨pieces, hp, hsegs'⟩ := groups_of_map (fun s => (c.code s).getD []) segs text hsegs
+  refine ⟨pieces, hp, ?_, ?_⟩
+  · rw [hsl, hsegs']; simp [codeChars, List.map_map, Function.comp_def]
+  · intro t ht
+    have hsub : ∀ s ∈ t, ∃ u, c.code s = some u := by
+      intro s hs
+      exact hall s (by rw [← hp]; exact List.mem_flatten.2 ⟨t, ht, hs⟩)
+    exact C05.string_roundtrip c h1 hne t _ (encodeAll_of_codes c t hsub) _ (by omega)
+
+open SmsVerif.Text in
+/-- **C14 for UCS-2**: for every text the encoder accepts, with the surrogate-aware rule, the parts
+    decoded separately and concatenated give the text -/
+theorem C14_ucs2_parts_decode_to_text (text out : List Nat) (h : encodeAll utf16 text = some out)
+    (per : Nat) (hper : 4 ≤ per) (heven : per % 2 = 0) :
+    ∃ pieces : List (List Nat), pieces.flatten = text ∧
+      slices out 0 (cutPoints ucs2Boundary out per (out.length + 1) 0)
+        = pieces.map (fun t => (codeChars utf16 t).flatten) ∧
+      ∀ t ∈ pieces, decodeAll utf16 (t.length + 1) (codeChars utf16 t).flatten = some t :=
+  parts_decode_to_text utf16 C05.utf16_step_code
+    (by
+      intro s u hu
+      simp only [utf16] at hu
+      split at hu
+      · simp at hu
+      · split at hu <;> (simp at hu; subst hu; simp))
+    text out h per _
+    (cutPoints_partition ucs2Boundary out per (by omega) _ 0 (Nat.zero_le _) (by omega))
+    (C14_ucs2_text_never_split text out h per hper heven)
+
+/-- non-vacuity: "你😀好" is accepted by the UCS-2 encoder (8 octets, the pair in the middle) -/
+example : Text.encodeAll Text.utf16 [0x4F60, 0x1F600, 0x597D] = some [0x4F, 0x60, 0xD8, 0x3D, 0xDE, 0x00, 0x59, 0x7D] := by decide
+/-- non-vacuity: "a€b" is accepted by the GSM 7-bit encoder as 61 1B 65 62 -/
+example : Gsm7.encode C08.T [0x61, 0x20AC, 0x62] = some [0x61, 0x1B, 0x65, 0x62] := by decide +kernel
+
 end SmsVerif.C14
 
 section
@@ -666,5 +971,11 @@ open SmsVerif.C14
 #print axioms C07_filled_gsm
 #print axioms C07_filled_ucs2
 #print axioms C07_filled_gb18030
+#print axioms C14_ucs2_parts_decode_to_text
+#print axioms parts_decode_to_text
+#print axioms C14_ucs2_text_never_split
+#print axioms C14_gsm_text_never_split
+#print axioms C14_single_octet_text_never_split
+#print axioms gsm_tables_avoid_esc
 #print axioms SmsVerif.Split.cuts_on_boundaries
 end
